@@ -550,10 +550,16 @@ impl Recognizer for DurationRecognizer {
                     }
                     ow => Some(Err(ReadError::UnexpectedField(Text::new(ow)))),
                 },
-                ReadEvent::EndRecord => Some(Ok(Duration::new(
-                    self.secs.unwrap_or_default(),
-                    self.nanos.unwrap_or_default(),
-                ))),
+                ReadEvent::EndRecord => {
+                    let nanos = self.nanos.unwrap_or_default();
+                    let result = self
+                        .secs
+                        .unwrap_or_default()
+                        .checked_add((nanos / 1_000_000_000) as u64)
+                        .map(|secs| Duration::new(secs, nanos % 1_000_000_000))
+                        .ok_or(ReadError::NumberOutOfRange);
+                    Some(result)
+                }
                 ow => Some(Err(ow.kind_error(ExpectedEvent::Or(vec![
                     ExpectedEvent::ValueEvent(ValueKind::Text),
                     ExpectedEvent::EndOfRecord,
